@@ -437,14 +437,24 @@ def confirm(binary, v, idx):
             for k, s in enumerate(ss):
                 body += '# <block name="k%d" keep-sorted severity="%s">\nb\na\n# </block>\n' % (k, s.lower())
             files['f%d.py' % fi] = body.encode()
-        r = run_scan(binary, files, ['**'])
         want = 1 if any(s == 'Error' for _f, s in v['severities']) else 0
-        ndiag = sum(len(x) for x in (r['diags'] or {}).values())
-        v['observed'] = dict(code=r['code'], diagnostics=ndiag)
-        if r['code'] != want or ndiag != len(v['severities']):
+        # the real HashMap order changes from run to run: extra warning-only files (they do not change
+        # the expected status) and repeated runs make an order-dependent status show
+        for k in range(6):
+            files['w%d.py' % k] = b'# <block name="w" keep-sorted severity="warning">\nb\na\n# </block>\n'
+        nexp = len(v['severities']) + 6
+        seen = []
+        for _ in range(10):
+            r = run_scan(binary, files, ['**'])
+            ndiag = sum(len(x) for x in (r['diags'] or {}).values())
+            seen.append((r['code'], ndiag))
+            if r['code'] != want or ndiag != nexp:
+                break
+        v['observed'] = dict(runs=seen)
+        if seen[-1][0] != want or seen[-1][1] != nexp:
             v['confirmed'] = True
             v['replay'] = save_replay(PROP, '%s-%d' % (v['role'], idx), files, "'**'",
-                                      'expected exit %d and %d diagnostics; %s' % (want, len(v['severities']), v['summary']), v)
+                                      'expected exit %d and %d diagnostics on every run (run it several times: the order of files varies); %s' % (want, nexp, v['summary']), v)
         return v
     if 'list_blocks' in v:
         # two blocks whose start tags share a line, one later block
@@ -563,7 +573,8 @@ def main(tier):
     for role, vs in sorted(by_role.items()):
         got = None
         for i, v in enumerate(vs[:8]):
-            confirm(binary, v, i)
+            if not v.get('main'):        # main-wiring violations were replayed by mainwire.add_to
+                confirm(binary, v, i)
             if v['confirmed']:
                 got = v
                 break
